@@ -159,6 +159,13 @@ class ListModel:
         raise Unknown('weight list ' + show(t)[:100])
 
 
+def is_agent_array(t, n2):
+    """np.arange(1, n + 1), possibly shuffled in place (random.shuffle / np.random.shuffle leave the multiset unchanged)"""
+    while t[0] == 'upd' or (t[0] == 'call' and t[1] in (S('list'), S('tuple'))):
+        t = t[1] if t[0] == 'upd' else t[2][0]
+    return t[0] == 'call' and show(t[1]) == 'np.arange' and len(t[2]) == 2 and t[2][0] == C(1) and t[2][1] == BIN('Add', n2, C(1))
+
+
 def run(rep, repo, tier):
     for k, v in RULES.items():
         rep.rule(k, v)
@@ -431,12 +438,17 @@ def check_use(rep, repo, f):
             return alts(t[2], conds + [t[1]]) + alts(t[3], conds + [NOT(t[1])])
         return [(conds, t)]
     n_el = 0
+    via_perm = set()
     for el in elems:
         for conds, t in alts(el, []):
             n_el += 1
             inner = t
             while inner[0] == 'call' and inner[1] in (S('list'), S('tuple')) or (inner[0] == 'call' and show(inner[1]) in ('np.array', 'np.asarray')):
                 inner = inner[2][0]
+            # PERM[np.random.choice(n, ...)] with PERM a permutation of the agents: the draw of positions, mapped to agents
+            if inner not in uniq and inner[0] == 'idx' and inner[2] in uniq and is_agent_array(inner[1], n2):
+                via_perm.add(inner[2])
+                continue
             if inner not in uniq:
                 rep.fail('C17.R5', g.where, 'every preference list is drawn with the popularity weights', got='when %s the list is %s' % (' and '.join(show(c)[:60] for c in conds) or 'always', show(inner)[:100]),
                          want='np.random.choice(agents, length, replace=False, p=weights) on every path', construct='unweighted list: ' + show(inner)[:60])
@@ -451,5 +463,7 @@ def check_use(rep, repo, f):
                   construct='replace= argument', loc=e.loc)
         pop = t[2][0] if t[2] else kw.get('a')
         ok = pop is not None and pop[0] == 'call' and show(pop[1]) == 'np.arange' and len(pop[2]) == 2 and pop[2][0] == C(1) and pop[2][1] == BIN('Add', n2, C(1))
+        if not ok and t in via_perm and pop == n2:
+            ok = True                 # positions 0..n-1 of an array holding the agents 1..n
         rep.check(ok, 'C17.R5', g.where, 'the population weighted is exactly the n agents 1..n (one weight per agent)', got=show(pop)[:100] if pop is not None else None, want='np.arange(1, n2 + 1)',
                   construct='population %s' % (show(pop)[:60] if pop is not None else None), loc=e.loc)
